@@ -298,31 +298,33 @@ WrapNode(kind, n) == CASE kind = "inpkgU"  -> <<"pkg",  << <<<<81, "Q">>, n>> >>
                        [] kind = "inhash2" -> <<"hash", << <<<<97, "a">>, <<"hash", << <<<<80, "P">>, n>> >> >> >> >> >>
                        [] OTHER -> n
 
-(* dotGetSetHelper: look the first segment up, then walk the rest with the *)
-(* walker that fits the value found.                                       *)
-ImplWalk(t, al, p, set, D1, D2) ==
-    LET k == al[2]
-        pre == SubSeq(p, 1, k)
-        nk == NodeAt(t, pre)
-        W == WrapNames(al[1])
-        start == WrapNode(al[1], nk)
-        tp == W \o From(p, k + 1)
+(* dotGetSetHelper: look the first segment up, then walk the rest tp with   *)
+(* the walker that fits the value found: nk, the value the alias is bound  *)
+(* to (pre: its path in t), inside the containers of the alias kind.       *)
+ImplWalk(t, kind, nk, pre, rest, set, D1, D2) ==
+    LET W == WrapNames(kind)
+        start == WrapNode(kind, nk)
+        tp == W \o rest
         x == [t |-> t, pre |-> pre, set |-> set, D1 |-> D1, D2 |-> D2]
     IN IF nk = None \/ Len(tp) = 0 THEN IErr
        ELSE CASE start[1] = "pkg"  -> IStack(x, start, pre, Len(W), tp, 1)
               [] start[1] = "hash" -> IHash(x, start, pre, Len(W), tp, 1)
               [] OTHER -> IErr
 
-(* what the walkers with the switches D1, D2 do for the outside access o   *)
-(* (binding the alias to a nested package is itself a dot-path read from   *)
-(* the root): [k, n, loc, c] with c the tree afterwards                    *)
+(* what the walkers with the switches D1, D2 do for the outside access o:  *)
+(* [k, n, loc, c] with c the tree afterwards.  Binding the alias to a      *)
+(* nested package, (def zp root.a.b), is itself a dot-path read from the   *)
+(* root; the alias is bound to whatever that read returns.                 *)
 ImplDo(t, o, D1, D2) ==
     LET isw == o.rt \in WriteRoutes
-        r == ImplWalk(t, o.al, AccessPath(o), isw /\ o.rt # "hset", D1, D2)
+        k == o.al[2]
+        ap == AccessPath(o)
+        b == IF k = 0 THEN [k |-> "val", n |-> t, loc |-> <<>>]
+             ELSE ImplWalk(t, "direct", t, <<>>, SubSeq(o.p, 1, k), FALSE, D1, D2)
         fail == [k |-> "err", n |-> None, loc |-> <<>>, c |-> t]
-    IN IF o.al[2] > 0 /\ ImplWalk(t, <<"direct", 0>>, SubSeq(o.p, 1, o.al[2]), FALSE, D1, D2).k # "val"
-       THEN fail
-       ELSE CASE r.k = "err" -> fail
+    IN IF b.k # "val" THEN fail
+       ELSE LET r == ImplWalk(t, o.al[1], b.n, b.loc, From(ap, k + 1), isw /\ o.rt # "hset", D1, D2) IN
+            CASE r.k = "err" -> fail
               [] r.k = "set" -> [k |-> "set", n |-> None, loc |-> r.loc, c |-> SetAt(t, r.loc, NewVal(o))]
               [] o.rt = "hset" ->
                    IF r.n[1] = "hash"
